@@ -37,8 +37,13 @@ LEVEL_TEXT = ("Machine-checked proof (Lean 4) that libccp's reader (packed littl
               "(register, value) pairs in order, later entries winning (updatefield_staged, changeprog_staged; unknown uid refused), the "
               "next invocation applies them before the program runs (pending_applied, update_takes_effect), for up to 127 updates - "
               "128..255 pairs, which portus can encode, are refused by libccp as a whole (updatefield_over_127_refused: libccp reads the "
-              "count from a signed byte). Encoders tied to the code by differential runs; the libccp model by the cross-check that "
-              "feeds portus-built messages to the real libccp.")
+              "count from a signed byte). libccp's unwritten convention - an INSTALL with program uid 1 means 'a new CCP started' and empties "
+              "the program table - is covered by Props/C06Uid over the uid allocation translated from /repo on every run: the first "
+              "compilation of a process gets uid 1 (first_uid_is_marker), no later one does (later_uid_not_marker), a non-marker install "
+              "keeps every installed program selectable (install_nonmarker_keeps) and a marker install forgets them "
+              "(install_marker_forgets). Encoders tied to the code by differential runs; the libccp model by the cross-check that "
+              "feeds portus-built messages - and, from a fresh process, the runtime's own installs and change-program in send order - "
+              "to the real libccp.")
 LEVEL_NOTE = ("Trusts: Lean kernel; correspondence (register table exhaustive, lists of all lengths 0..300); the libccp reader model. "
               "'libccp behaves accordingly' is proved over the libccp MODEL; the model's fidelity to the C code is validated against the real libccp, not proved.")
 TECHNIQUE = "Lean 4 theorems (independent libccp reader ∘ encoder = identity on records) + differential correspondence + Lean oracle"
